@@ -27,7 +27,9 @@ RULE = ("one virtual process (child / non-child / gone-before-the-call) or 1-6 o
         "and touched through those calls; psutil.Popen objects (wrapping a faked subprocess.Popen over the same virtual kernel): histories "
         "{poll, communicate, leaving `with`, wait(None/0/0.01)} collecting first x status {0,1,255,-9,-15} x child ended / ending in 3 ms x "
         "PID recycled or not, then repeated waits; Popen objects inside wait_procs, with a chosen set-iteration "
-        "priority (all permutations for <=3 in quick, <=4 in thorough), callback none/callable/not callable. Non-trivial = at "
+        "priority (all permutations for <=3 in quick, <=4 in thorough), callback function / lambda / bound method / "
+        "functools.partial / FALSY callables (empty list subclass with __call__, __len__()==0, __bool__ False) / None / not callable (int, str); "
+        "procs given as list / tuple / generator / set; timeout as int / float / bool / Fraction. Non-trivial = at "
         "least one poll or a returned status; distinct = distinct canonical case hash.")
 TRUSTED = ["correspondence harness props/C15.py + props/_c15_vk.py (virtual kernel, virtual clock, fake /proc, set-order control by PID choice)",
            "the Python transcription of the property oracle (_spec_wait/_spec_procs in props/_c15_vk.py), used on the implementation's observations",
@@ -272,7 +274,9 @@ def gen_cases(rng, tier):
             if tm is None and p["exit"] is None and p["kind"] != "never":
                 p["exit"] = q(rng.choice([F(1, 3), F(1, 2), F(1), F(1, 200)]))
             ps.append(p)
-        cb = rng.choice(["ok"] * 6 + ["none"] * 3 + ["bad"])
+        cb = rng.choice(["ok"] * 3 + list(VK.CB_TRUTHY[1:]) + list(VK.CB_FALSY) * 2 + ["none"] * 3 + ["bad", "bad_str"])
+        procs_as = rng.choice(["list"] * 3 + ["tuple", "generator", "set"])
+        tm_type = rng.choice(["auto", "auto", "int", "float", "bool", "fraction"])
         start = rng.choice([F(0), F(0), F(5, 7), F(10001, 10)])
         for p in ps:
             if p["exit"] is not None:
@@ -297,14 +301,29 @@ def gen_cases(rng, tier):
                     if rng.random() < 0.5:
                         p["status"] = ["code", 0]
         for pr in prios:
-            c = {"kind": "procs", "cls": "procs-%d%s%s%s%s" % (n, "-notimeout" if tm is None else "", "-cb" if cb == "ok" else "",
+            c = {"kind": "procs", "cls": "procs-%d%s%s%s%s" % (n, "-notimeout" if tm is None else "", "-cb" if cb in VK.CB_TRUTHY else "-falsycb" if cb in VK.CB_FALSY else "",
                                                                 "-prewaited" if pre else "", "-popen" if pop else ""),
-                 "procs": ps, "prio": pr, "timeout": None if tm is None else q(tm), "cb": cb, "start": q(start)}
+                 "procs": ps, "prio": pr, "timeout": None if tm is None else q(tm), "cb": cb, "start": q(start),
+                 "procs_as": procs_as, "tm_type": tm_type}
             if pop:
                 c["popen"] = pop
             if pre:
                 c["prewait"], c["inter"] = pre, inter
             cases.append(c)
+    # systematic: every callback kind x container x timeout type; one process gone at once, one gone during the wait
+    # (so the callback object is called twice: a Collector(list) is falsy at the first call only), one alive
+    if tier != "search":
+        k = 0
+        for cbk in VK.CB_CALLABLE + ("none",) + VK.CB_BAD:
+            for tmv, tmt in ((F(1), "bool"), (F(1), "int"), (F(1, 2), "float"), (F(1, 20), "fraction"), (F(0), "bool"), (None, "auto")):
+                ps = [{"pid": 1, "kind": "child", "exit": q(F(-1)), "status": ["code", 0], "eintr": []},
+                      {"pid": 2, "kind": "child", "exit": q(F(3, 1000)), "status": ["sig", 9, False], "eintr": []},
+                      {"pid": 3, "kind": "nonchild", "exit": q(F(1, 100)) if tmv is None else None, "status": ["code", 0], "eintr": []}]
+                cases.append({"kind": "procs", "cls": "procs-3-args-" + ("falsycb" if cbk in VK.CB_FALSY else "cb" if cbk in VK.CB_TRUTHY else cbk),
+                              "procs": ps, "prio": [[0, 1, 2], [2, 1, 0], [1, 0, 2]][k % 3],
+                              "timeout": None if tmv is None else q(tmv), "cb": cbk, "start": q(0),
+                              "procs_as": ["list", "tuple", "generator", "set"][k % 4], "tm_type": tmt})
+                k += 1
     # systematic: wait_procs([Popen]) after the wrapped object collected status 0 / 3 / -9
     if tier != "search":
         for st in (["code", 0], ["code", 3], ["sig", 9, False]):
@@ -389,7 +408,8 @@ def coq_term(case):
                 ops.append("PoOther")
         return "run_popen %s %s %s %d%%nat" % (gproc(case["proc"]), gq(case["start"]), G.lst(ops), FUEL)
     if k == "procs":
-        cb = {"none": "CbNone", "ok": "CbOk", "bad": "CbBad"}[case["cb"]]
+        cb = ("CbNone" if case["cb"] == "none" else "CbBad" if case["cb"] in VK.CB_BAD
+              else "(CbOk true)" if case["cb"] in VK.CB_TRUTHY else "(CbOk false)")
         return "run_procs %s [%s] %s %s %d%%nat %d%%nat %s" % (
             G.lst([gproc(p) for p in case["procs"]]), "; ".join("%d%%nat" % i for i in case["prio"]),
             gopt(case["timeout"]), cb, FUEL, ROUNDS, gq(case["start"]))
